@@ -43,6 +43,19 @@ class PartHooks(SliceHooks):
         if self.watch is not None and self.watch in I.cond_atoms(st, c):
             st.ev('cs-read', inst)
 
+    # a preparatory loop of the member itself that calls nothing (a scan over the separator before the searching loop) is
+    # interpreted exactly for its first rounds, so that what it leaves behind is a function of the inputs on those paths
+    prescan_unroll = 3
+
+    def unroll_for(self, I, fn, header, st=None):
+        if st is not None and len(st.frames) == 1 and self.unroll == 0:
+            from ..interp import loop_info
+            loops, _b = loop_info(fn)
+            body = loops.get(header, ())
+            if body and not any(i.op in ('call', 'invoke') for b in fn.blocks if b.id in body for i in b.insts):
+                return self.prescan_unroll
+        return self.unroll
+
     def call(self, I, st, inst, name, args):
         if name is None:
             return None
@@ -214,11 +227,28 @@ def splits(run, m, F, E, L):
                     continue
                 nm, bv, ev = cur[0]
                 # R09.2 resume position
-                if not (isinstance(ev, PtrV) and s2.is_eq0(ev.off - mt[1] - seplen) is True):
-                    p2.append('next search starts at match + (%r), the separator searched for is %s long' %
-                              ((ev.off - mt[1]) if isinstance(ev, PtrV) else '?', {'char': '1 unit', 'cstr': 'strlen(splitter)', 'string': 'splitter.size()'}[form]))
-                if s2.is_eq0(mt[2] - seplen) is not True:
-                    p2.append('the needle length handed to the search is %r, not the separator length' % (mt[2],))
+                what = {'char': '1 unit', 'cstr': 'strlen(splitter)', 'string': 'splitter.size()'}[form]
+                if not isinstance(ev, PtrV):
+                    und.append('cursor after the iteration not tracked')
+                else:
+                    d9 = ev.off - mt[1] - seplen
+                    r9 = s2.is_eq0(d9)
+                    if r9 is not True:
+                        env = s2.find_model([d9], lambda v: v[0] != 0)
+                        if env is not None or r9 is False:
+                            p2.append('next search starts at match + (%r), the separator searched for is %s long%s' %
+                                      (ev.off - mt[1], what, '; witness ' + own.fmt_env(env) if env else ''))
+                        else:
+                            und.append('resume position match + (%r) vs the separator length (%s) not decided' % (ev.off - mt[1], what))
+                d8 = mt[2] - seplen
+                r8 = s2.is_eq0(d8)
+                if r8 is not True:
+                    env = s2.find_model([d8], lambda v: v[0] != 0)
+                    if env is not None or r8 is False:
+                        p2.append('the needle length handed to the search is %r, not the separator length (%s)%s' %
+                                  (mt[2], what, '; witness ' + own.fmt_env(env) if env else ''))
+                    else:
+                        und.append('needle length %r vs the separator length (%s) not decided' % (mt[2], what))
                 # R09.4 piece = [cursor, match)
                 if len(pc) != 1 or not (isinstance(pc[0][2], PtrV) and pc[0][2].obj == sto.obj and s2.is_eq0(pc[0][2].off - bv.off) is True and
                                         isinstance(pc[0][3], IntV) and s2.is_eq0(I.as_u(s2, pc[0][3]) - (mt[1] - bv.off)) is True):
